@@ -3,6 +3,7 @@ package kit
 import (
 	"encoding/json"
 	"fmt"
+	"os"
 
 	"github.com/jsightapi/jsight-schema-core/fs"
 	"github.com/jsightapi/jsight-schema-core/reader"
@@ -19,6 +20,12 @@ type JApi struct {
 }
 
 func NewJapi(filepath string, oo ...core.Option) (JApi, *jerr.JApiError) {
+	if info, err := os.Stat(filepath); err == nil && !info.IsDir() && !info.Mode().IsRegular() {
+		// Reading a named pipe blocks until somebody writes into it, a device may
+		// never end.
+		return JApi{}, jerr.NewJApiError(
+			fmt.Sprintf("%s: is not a regular file", filepath), fs.NewFile(filepath, ""), 0)
+	}
 	f, err := readPanicFree(filepath)
 	if err != nil {
 		// There is no content to point into: the error is located at the
